@@ -5,7 +5,7 @@
 (* and after every event the logged report (order, aliases, kinds, tracking, parse status,   *)
 (* typification, arguments, dependency edges) must equal the specification's content and     *)
 (* from-scratch Analysis.                                                                     *)
-EXTENDS Schema, Json, IOUtils
+EXTENDS SchemaOps, Json, IOUtils
 VARIABLES l, seen
 TraceLog == ndJsonDeserialize(IOEnv.TRACE)
 tvars == <<order, cst, trk, l, seen>>
@@ -35,6 +35,7 @@ TNext ==
        [] Ev.e = "SetTerm" -> SetTerm(Ev.u, Ev.q)
        [] Ev.e = "SetText" -> SetText(Ev.u, Ev.q)
        [] Ev.e = "SetConvention" -> SetConvention(Ev.u, Ev.w)
+       [] Ev.e = "Extract" -> UNCHANGED svars          \* basis / maximal part: builds a new schema, the source is untouched
        [] Ev.e = "Fault" -> FALSE
 TSpec == TInit /\ [][TNext]_tvars
 
@@ -52,5 +53,19 @@ PropSchema ==
          /\ ToSet(it.deps) = Deps(cst, u)
     /\ seen.sameAsReloaded            \* clause (ii): the incremental state equals a copy reloaded from the saved document
     /\ SchemaInv
+\* C13 on recorded extractions (events "Extract": operation, selection, refused?, members, new aliases, statuses of the result)
+PropExtract ==
+  (seen # NoObs /\ "ext" \in DOMAIN seen) =>
+    LET x == seen.ext  S == ToSet(x.sel)
+        defined == IF x.op = "basis" THEN BasisDefined(cst, S) ELSE MaxPartDefined(cst, S)
+    IN /\ seen.order = order                                   \* the source is untouched
+       /\ defined => x.defined
+       /\ (defined /\ x.defined) =>
+            LET R == IF x.op = "basis" THEN Basis(cst, S) ELSE MaxPart(cst, S)
+                ex == Extract(order, cst, R)
+                an == Analysis(cst)
+            IN /\ x.members = ex.order
+               /\ x.aliases = [i \in DOMAIN ex.order |-> ex.cst[ex.order[i]].alias]
+               /\ Captures(cst, R, ex) \/ x.oks = [i \in DOMAIN ex.order |-> an[cst[ex.order[i]].alias].ok]
 TraceAccepted == TLCGet("stats").diameter - 1 = Len(TraceLog)
 =============================================================================
